@@ -113,6 +113,19 @@ def r1_index(text: str, receivers: Dict[str, str]) -> Tuple[str, int]:
     return _fix(text, step)
 
 
+# --------------------------------------------------------------------------------------- R1b
+def r1b_field_store(text: str) -> Tuple[str, int]:
+    """`v[i].f = x;`  ->  `{ let mut t__ = v[i].clone(); t__.f = x; v.set(i, t__); }`   (IndexMut on a Vec of structs + field store)"""
+    n = 0
+    def sub(m):
+        nonlocal n
+        n += 1
+        v, i, f, x = m.group(1), m.group(2), m.group(3), m.group(4)
+        return f"{{ let mut t__ = {v}[{i}].clone(); t__.{f} = {x}; {v}.set({i}, t__); }}"
+    text = re.sub(r"\b([a-z_][A-Za-z0-9_]*)\[([a-z_][A-Za-z0-9_]*)\]\.([a-z_][A-Za-z0-9_]*) = ([^;]+);", sub, text)
+    return text, n
+
+
 # --------------------------------------------------------------------------------------- R2
 def _anf(text: str, toks: List[Tok], cvar: str, ctx: str, counter: List[int], lets: List[str]) -> str:
     """toks: code tokens of one expression.  Returns the atom text that stands for it."""
